@@ -3,7 +3,7 @@ import ast
 
 from ..model import AnalysisError, dotted, unparse
 from ..structfmt import parse_format, local_defs, resolve_local, reaching_def
-from ..util import POS, FACTS, FACTS_I, U, enum_paths, walk_no_nested, norm_fact
+from ..util import equiv_facts, POS, FACTS, FACTS_I, U, enum_paths, walk_no_nested, norm_fact
 from ..paths import call_attr, call_name
 from .. import wire
 
@@ -76,18 +76,23 @@ def r1(ctx):
   # reply: size from unpack of readAll(4), body readAll(size)
   why = ('the reply body is exactly the number of bytes announced by the 4-byte prefix, and both must be read with the '
          'accumulate loop (readAll): a single read may return fewer bytes than asked')
-  un = [st for st in walk_no_nested(g.node) if isinstance(st, ast.Assign) and isinstance(st.value, ast.Call) and call_attr(st.value) == 'unpack']
+  def _unp(v):
+    if isinstance(v, ast.Subscript) and U(v.slice) == '0':
+      v = v.value
+    return v if isinstance(v, ast.Call) and call_attr(v) == 'unpack' else None
+  un = [st for st in walk_no_nested(g.node) if isinstance(st, ast.Assign) and _unp(st.value) is not None]
   if len(un) != 1:
     ctx.ob('C14.R1', g, 'reply = readAll(4) -> unpack -> readAll(size)', False, 'expected exactly one unpack of the reply length, found %d' % len(un), why)
   else:
     u = un[0]
-    src = u.value.args[1] if len(u.value.args) > 1 else None
-    fmt = parse_format(u.value.args[0]) if u.value.args else None
+    uc = _unp(u.value)
+    src = uc.args[1] if len(uc.args) > 1 else None
+    fmt = parse_format(uc.args[0]) if uc.args else None
     oka = (isinstance(src, ast.Call) and call_attr(src) == 'readAll' and U(src.func.value).endswith('_socket') and len(src.args) == 1
            and isinstance(src.args[0], ast.Constant) and src.args[0].value == 4
            and fmt is not None and [(x.code, x.count) for x in fmt.fields] == [('i', 1)])
     t = u.targets[0]
-    name = t.elts[0].id if isinstance(t, ast.Tuple) and len(t.elts) == 1 and isinstance(t.elts[0], ast.Name) else None
+    name = t.elts[0].id if isinstance(t, ast.Tuple) and len(t.elts) == 1 and isinstance(t.elts[0], ast.Name) else (t.id if isinstance(t, ast.Name) and uc is not u.value else None)
     body = [c for c in walk_no_nested(g.node) if isinstance(c, ast.Call) and call_attr(c) in ('readAll', 'read', 'recv')
             and c is not src and c.lineno >= u.lineno]
     okb = (name is not None and len(body) == 1 and call_attr(body[0]) == 'readAll' and len(body[0].args) == 1
@@ -109,18 +114,21 @@ def r2(ctx):
     lp = loops[0]
     cnt = None
     t = lp.test
-    if isinstance(t, ast.Compare) and len(t.ops) == 1:
-      nf = norm_fact(t, True)
-      # have < sz
-      for nm in (U(t.left), U(t.comparators[0])):
-        if nm != sz:
-          cnt = nm
-      ok = nf in ((cnt, '<', sz), (sz, '>', cnt)) or (nf[1] in ('<', '>') and {nf[0], nf[2]} == {cnt, sz} and ((nf[0] == cnt) == (nf[1] == '<')))
-    else:
-      ok = False
-    ctx.ob('C14.R2', f, 'loop continues while have < sz', ok, 'loop condition is %s' % U(t), why)
+    mode = None
+    fcl = equiv_facts(t, True)
+    names_in_test = [n.id for n in ast.walk(t) if isinstance(n, ast.Name) and n.id != sz]
+    cnt = names_in_test[0] if names_in_test else None
+    init = [st for st in f.node.body if isinstance(st, ast.Assign) and cnt is not None and U(st.targets[0]) == cnt and st.lineno < lp.lineno]
+    initv = U(init[-1].value) if init else None
+    if cnt is not None and ('%s<%s' % (cnt, sz), True) in fcl and initv == '0':
+      mode = 'up'
+    elif cnt is not None and ('%s>0' % cnt, True) in fcl and initv == sz:
+      mode = 'down'
+    ok = mode is not None
+    ctx.ob('C14.R2', f, 'loop continues until sz bytes were received', ok, 'loop condition is %s with %s initialised to %s' % (U(t), cnt, initv), why)
     if not ok or cnt is None:
       continue
+    remaining_forms = ('%s-%s' % (sz, cnt), '(%s-%s)' % (sz, cnt)) if mode == 'up' else (cnt,)
     # read request bounded by sz - have
     reads = [c for c in ast.walk(lp) if isinstance(c, ast.Call) and call_attr(c) in ('read', 'recv_into', 'recv')]
     okr = False
@@ -128,7 +136,7 @@ def r2(ctx):
     for c in reads:
       size_arg = c.args[-1] if c.args else None
       sa = resolve_local(size_arg, defs, c.lineno) if size_arg is not None else None
-      if sa is not None and U(sa).replace(' ', '') in ('%s-%s' % (sz, cnt), '(%s-%s)' % (sz, cnt)):
+      if sa is not None and (U(sa).replace(' ', '') in remaining_forms or U(size_arg).replace(' ', '') in remaining_forms):
         okr = True
       # result binding
       for st in ast.walk(lp):
@@ -137,11 +145,11 @@ def r2(ctx):
       if call_attr(c) == 'recv_into' and c.args:
         # destination offset must be the running count
         dst = U(c.args[0]).replace(' ', '')
-        ctx.ob('C14.R2', f, 'recv_into destination offset', dst.endswith('[%s:]' % cnt), 'destination is %s' % dst,
+        ctx.ob('C14.R2', f, 'recv_into destination offset', dst.endswith('[%s:]' % cnt) if mode == 'up' else dst.replace('(', '').replace(')', '').endswith('[%s-%s:]' % (sz, cnt)), 'destination is %s' % dst,
                'later chunks must land after the bytes already received')
-    ctx.ob('C14.R2', f, 'each read asks for at most sz - have', okr, 'read size is not %s - %s' % (sz, cnt),
+    ctx.ob('C14.R2', f, 'each read asks for at most the remaining bytes', okr, 'read size is not one of %s' % (remaining_forms,),
            'asking for more than the remainder consumes bytes of the next message')
-    incs = [st for st in ast.walk(lp) if isinstance(st, ast.AugAssign) and isinstance(st.op, ast.Add) and U(st.target) == cnt]
+    incs = [st for st in ast.walk(lp) if isinstance(st, ast.AugAssign) and isinstance(st.op, ast.Add if mode == 'up' else ast.Sub) and U(st.target) == cnt]
     oki = len(incs) == 1 and got_len is not None and U(incs[0].value).replace(' ', '') == got_len
     ctx.ob('C14.R2', f, 'count advances by the returned length', oki,
            'count update is %s (returned length is %s)' % ([U(i) for i in incs], got_len),
